@@ -4,4 +4,5 @@ pub mod pipeline;
 pub mod props;
 pub mod refmodel;
 pub mod subject;
+pub mod tables;
 pub mod ucd;
